@@ -141,7 +141,7 @@ def run(ctx: Ctx):
     items = []
     for j, h in enumerate(good[: (60 if quick else 1200)]):
         el, proj, via = combos[j % len(combos)]
-        if quick and proj == "finite" and j % 8:
+        if quick and proj == "finite" and j % 8 != 2:
             el, proj, via = combos[0]
         meta = {"hist": h, "elements": el, "projection": proj, "via": via}
         items.append((meta, replay_hist(h, el, proj, via)))
